@@ -153,11 +153,32 @@ class ListingProbe(Probe):
                 targets = expand(ref) if isinstance(ref, a.CircuitCompositeOperation) else [ref]
                 for t in targets:
                     if id(t) in pos and pos[id(t)] > k:
-                        fails.append({'what': 'operation listed before the operation its relation refers to', 'pos': k})
+                        fails.append({'what': 'operation listed before the operation its relation refers to', 'pos': k,
+                                      'group_link': isinstance(o.relation_link, a.MultiRelationLink)})
                         break
+                if fails:
+                    break
             again = circ.operations
             if len(again) != len(ops) or any(x is not y for x, y in zip(again, ops)):
                 fails.append({'what': 'listing twice gives a different sequence'})
+        return fails
+
+
+@register
+class ListingMultisetProbe(Probe):
+    """multiset clause of C02 only (used as a helper by other checks)."""
+    name = 'C02m'
+
+    def after(self, run, i, cmd, ans):
+        fails = []
+        if cmd[0] == 'list' and ans not in (None, 'undef') and run.last_ops is not None:
+            exp = run.shadow_expected(cmd[1])
+            if exp is not None:
+                got = Counter(sig(o) for o in run.last_ops)
+                if got != exp:
+                    fails.append({'what': 'listing is not the multiset of added leaf operations',
+                                  'missing': repr(list((exp - got).items())[:3]),
+                                  'extra': repr(list((got - exp).items())[:3])})
         return fails
 
 
@@ -203,3 +224,296 @@ class DurationProbe(Probe):
                         fails.append({'what': 'operation FOLLOWED_BY a block starts before the block content ended'})
                         break
         return fails
+
+
+def overlap_free(ops):
+    """no two operations of non-zero length sharing a channel overlap in time."""
+    spans = [(o.start_time, o.end_time, o.channel_identifiers) for o in ops if o.duration > 0]
+    for i in range(len(spans)):
+        for j in range(i + 1, len(spans)):
+            a, b = spans[i], spans[j]
+            if a[0] < b[1] and b[0] < a[1] and any(ch_match(x, y) for x in a[2] for y in b[2]):
+                return False
+    return True
+
+
+def all_counts_one(circ):
+    if circ.circuit_structure.nr_of_repetitions != 1:
+        return False
+    return all(c.nr_of_repetitions == 1 for c in circ.composite_operations)
+
+
+@register
+class AcquisitionProbe(Probe):
+    """C07: indices enumerate the measurements of a modifier-applied circuit, in listing order."""
+    name = 'C07'
+
+    def after(self, run, i, cmd, ans):
+        fails = []
+        if cmd[0] != 'list' or ans in (None, 'undef') or run.last_ops is None:
+            return fails
+        a = progs.api()
+        from qce_circuit.structure.intrf_acquisition_operation import AcquisitionTag
+        circ = run.circs[cmd[1]]
+        if not all_counts_one(circ):
+            return fails
+        ops = run.last_ops
+        ms = [o for o in ops if type(o).__name__ == 'DispersiveMeasure']
+        # quantifier: every measurement was created against this circuit or a sub-circuit nested into it
+        if not run.measurements_own_registry(cmd[1]):
+            return fails
+        per_q = {}
+        for k, m in enumerate(ms):
+            q = m.qubit_index
+            r = per_q.get(q, 0)
+            per_q[q] = r + 1
+            if m.circuit_level_acquisition_index != k:
+                fails.append({'what': 'circuit-level index is not the position among the listed measurements',
+                              'pos': k, 'got': m.circuit_level_acquisition_index})
+                return fails
+            if m.acquisition_index != r:
+                fails.append({'what': 'per-qubit index is not the rank among the listed measurements of that qubit',
+                              'pos': k, 'got': m.acquisition_index})
+                return fails
+        for q in per_q:
+            got = [int(x) for x in circ.get_acquisition_indices(q)]
+            if got != list(range(per_q[q])):
+                fails.append({'what': 'get_acquisition_indices(qubit) is not 0..n-1', 'qubit': q, 'got': got})
+                return fails
+            tags = sorted({m.acquisition_tag for m in ms if m.qubit_index == q})
+            union = []
+            for t in tags:
+                got_t = [int(x) for x in circ.get_acquisition_indices(AcquisitionTag(q, t))]
+                exp_t = [m.acquisition_index for m in ms if m.qubit_index == q and m.acquisition_tag == t]
+                if got_t != exp_t:
+                    fails.append({'what': 'get_acquisition_indices(tag) is not the indices of the matching measurements',
+                                  'qubit': q, 'tag': t})
+                    return fails
+                union += got_t
+            if sorted(union) != list(range(per_q[q])):
+                fails.append({'what': 'tags do not partition the qubit indices', 'qubit': q})
+                return fails
+        # time monotonicity: implicitly sequenced and overlap free
+        if run.implicit_only and overlap_free(ops):
+            for q in per_q:
+                ts = [m.start_time for m in ms if m.qubit_index == q]
+                if any(x >= y for x, y in zip(ts, ts[1:])):
+                    fails.append({'what': 'per-qubit indices do not increase with measurement start time', 'qubit': q})
+                    return fails
+        return fails
+
+
+def no_lead(block):
+    """no directly contained node starts before the block's first (depth-1) nodes."""
+    if block.empty_composite:
+        return True
+    nodes = graph_nodes(block)
+    head_lo = min(nd.operation.start_time for nd in block._circuit_graph.get_nodes_at(depth=1))
+    return min(o.start_time for o in nodes) >= head_lo
+
+
+@register
+class UnrollProbe(Probe):
+    """C06: apply_modifiers multiplies contents, resets counts, is idempotent, leaves the rest alone; n*T."""
+    name = 'C06'
+
+    def before(self, run, i, cmd):
+        self.pre = None
+        if cmd[0] != 'apply':
+            return
+        a = progs.api()
+        circ = run.circs[cmd[1]]
+        st = circ.circuit_structure
+        blocks = [st] + list(circ.composite_operations)
+        nt = []
+        for b in blocks:
+            n = b.nr_of_repetitions
+            inner = [x for x in b.get_sub_composite_operations()]
+            if n < 2 or b.empty_composite or any(x.nr_of_repetitions != 1 for x in inner):
+                continue
+            nodes = graph_nodes(b)
+            leaf_ops = [nd.operation for nd in b._circuit_graph.leaf_nodes]
+            try:
+                latest = max(o.end_time for o in nodes)
+                leaf_latest = any(o.end_time == latest for o in leaf_ops)
+                nt.append((b, n, b.duration, leaf_latest and all(no_lead(x) for x in [b] + inner)))
+            except RecursionError:
+                pass
+        # operations outside every repeated block
+        outside = []
+
+        def walk(s, repeated):
+            rep = repeated or s.nr_of_repetitions != 1
+            for o in graph_nodes(s):
+                if isinstance(o, a.CircuitCompositeOperation):
+                    walk(o, rep)
+                elif not rep:
+                    outside.append((o, sig(o), o.relation_link))
+        walk(st, False)
+        self.pre = (nt, outside)
+
+    def after(self, run, i, cmd, ans):
+        fails = []
+        if cmd[0] != 'apply' or self.pre is None:
+            return fails
+        nt, outside = self.pre
+        circ = run.circs[cmd[1]]
+        if not all_counts_one(circ):
+            fails.append({'what': 'a repetition count is not 1 after apply_modifiers'})
+        for b, n, T, cond in nt:
+            if cond and b.duration != n * T:
+                fails.append({'what': 'block whose last-ending operation is a leaf does not occupy n*T', 'n': n,
+                              'T': T, 'got': b.duration})
+                break
+        now = {id(o) for o in expand(circ.circuit_structure)}
+        for o, s0, l0 in outside:
+            if id(o) not in now or sig(o) != s0 or o.relation_link is not l0:
+                fails.append({'what': 'an operation outside every repeated block was changed by apply_modifiers'})
+                break
+        # idempotence: a second application changes nothing observable
+        before_ids = [id(o) for o in expand(circ.circuit_structure)]
+        again = circ.apply_modifiers()
+        after_ids = [id(o) for o in expand(again.circuit_structure)]
+        if before_ids != after_ids:
+            fails.append({'what': 'applying modifiers twice differs from applying them once'})
+        return fails
+
+
+@register
+class FlattenProbe(Probe):
+    """C11: flatten keeps the leaf multiset, removes all nesting, is idempotent."""
+    name = 'C11'
+
+    def before(self, run, i, cmd):
+        self.pre = None
+        if cmd[0] == 'flatten':
+            from collections import Counter
+            self.pre = Counter(sig(o) for o in expand(run.circs[cmd[1]].circuit_structure))
+
+    def after(self, run, i, cmd, ans):
+        fails = []
+        if cmd[0] != 'flatten' or self.pre is None:
+            return fails
+        from collections import Counter
+        circ = run.circs[cmd[1]]
+        leaves = expand(circ.circuit_structure)
+        if Counter(sig(o) for o in leaves) != self.pre:
+            fails.append({'what': 'flatten changed the multiset of leaf operations'})
+        if circ.composite_operations:
+            fails.append({'what': 'a sub-circuit remains after flatten'})
+        ids = [id(o) for o in leaves]
+        links = [o.relation_link for o in leaves]
+        again = circ.flatten()
+        leaves2 = expand(again.circuit_structure)
+        if [id(o) for o in leaves2] != ids:
+            fails.append({'what': 'flattening twice gives a different listing than flattening once'})
+        elif any(o.relation_link.reference_node is not l.reference_node or
+                 o.relation_link.relation_type != l.relation_type for o, l in zip(leaves2, links)):
+            fails.append({'what': 'flattening twice changes a relation'})
+        return fails
+
+
+def positional_refs(struct):
+    """for each expanded leaf: (relation type, index of the referenced leaf in the expansion | 'C<k>' for the k-th
+    composite | None | 'ext')."""
+    a = progs.api()
+    leaves = []
+    comps = []
+
+    def walk(s):
+        for o in graph_nodes(s):
+            if isinstance(o, a.CircuitCompositeOperation):
+                comps.append(o)
+                walk(o)
+            else:
+                leaves.append(o)
+    walk(struct)
+    pos = {id(o): k for k, o in enumerate(leaves)}
+    cpos = {id(o): k for k, o in enumerate(comps)}
+    out = []
+    for o in leaves + comps:
+        link = o.relation_link
+        try:
+            ref = link.reference_node
+        except RecursionError:
+            ref = None
+        if ref is None:
+            r = None
+        elif id(ref) in pos:
+            r = pos[id(ref)]
+        elif id(ref) in cpos:
+            r = f'C{cpos[id(ref)]}'
+        else:
+            r = 'ext'
+        out.append((link.relation_type.name, r))
+    return leaves, comps, out
+
+
+@register
+class CopyProbe(Probe):
+    """C05: a copy (nesting, explicit copy) has the same operation sequence, relations re-pointed positionally,
+    same relative schedule; later mutations of one side do not change the other."""
+    name = 'C05'
+
+    def __init__(self):
+        self.watch = []   # (structure, fingerprint) pairs that must stay unchanged by mutations of the other side
+
+    @staticmethod
+    def fingerprint(struct):
+        leaves, comps, refs = positional_refs(struct)
+        return ([sig(o) for o in leaves], refs, [c.nr_of_repetitions for c in comps])
+
+    def after(self, run, i, cmd, ans):
+        fails = []
+        a = progs.api()
+        if cmd[0] in ('sub', 'copy'):
+            if cmd[0] == 'sub':
+                orig = run.circs[cmd[2]].circuit_structure
+                cp = run.handles[-1]
+            else:
+                orig = run.circs[cmd[1]].circuit_structure
+                cp = run.circs[-1].circuit_structure
+            lo, co, ro = positional_refs(orig)
+            lc, cc, rc = positional_refs(cp)
+            so, sc = [sig(o) for o in lo], [sig(o) for o in lc]
+            if so != sc:
+                fails.append({'what': 'copy does not have the same operation sequence'})
+            elif [c.nr_of_repetitions for c in co] != [c.nr_of_repetitions for c in cc]:
+                fails.append({'what': 'copy changed a repetition count'})
+            else:
+                for k, (x, y) in enumerate(zip(ro, rc)):
+                    if x[1] == 'ext' or (k >= len(lo) and x[1] is None):
+                        continue     # outside relation of the copied circuit itself: documented as dropped
+                    if x != y:
+                        fails.append({'what': 'an internal relation of the copy is not the re-pointed original relation',
+                                      'pos': k, 'orig': repr(x), 'copy': repr(y)})
+                        break
+                else:
+                    try:
+                        t0 = [(o.start_time, o.duration) for o in lo]
+                        t1 = [(o.start_time, o.duration) for o in lc]
+                        b0 = min((s for s, _ in t0), default=0.0)
+                        b1 = min((s for s, _ in t1), default=0.0)
+                        if [(s - b0, d) for s, d in t0] != [(s - b1, d) for s, d in t1]:
+                            fails.append({'what': 'copy does not have the same relative schedule'})
+                    except RecursionError:
+                        pass
+            if cmd[0] == 'copy':
+                self.watch.append((orig, cp))
+        # independence: whatever is mutated now, structures watched as its counterpart keep their fingerprint
+        if cmd[0] in ('op', 'sub', 'apply', 'flatten'):
+            target = run.circs[cmd[1]].circuit_structure
+            for x, y in self.watch:
+                for mine, other in ((x, y), (y, x)):
+                    if mine is target:
+                        fp = self.fps.get(id(other))
+                        if fp is not None and fp != self.fingerprint(other):
+                            fails.append({'what': 'mutating one side of a copy changed the other side'})
+        return fails
+
+    def before(self, run, i, cmd):
+        self.fps = {}
+        if cmd[0] in ('op', 'sub', 'apply', 'flatten'):
+            for x, y in self.watch:
+                for s in (x, y):
+                    self.fps[id(s)] = self.fingerprint(s)
